@@ -293,10 +293,12 @@ def make_layout(wd, cfg="MCLayout.cfg"):
 
 
 def write_evidence(pid, tier, seed, level, coverage, assumptions, violations):
-    os.makedirs(f"{VERIF}/evidence", exist_ok=True)
+    # evaluations of seeded changes (bin/seedrun) must never overwrite the evidence of the real tree
+    evdir = os.environ.get("VERIF_EVIDENCE_DIR", f"{VERIF}/evidence")
+    os.makedirs(evdir, exist_ok=True)
     ev = {"property_id": pid, "tier": tier, "seed": seed, "level": level, "coverage": coverage,
           "assumptions": assumptions, "wall_s": round(time.time() - T0, 1), "violations": violations}
-    with open(f"{VERIF}/evidence/{pid}.json", "w") as f:
+    with open(f"{evdir}/{pid}.json", "w") as f:
         json.dump(ev, f, indent=1)
 
 
